@@ -10,8 +10,10 @@ properties quantify over and the shared generator does not (or rarely) produce:
     other revision properties (empty value, non-ascii value), messages with blank lines / trailing
     newline / non-ascii text.
 
-Opt-in (C35; `build(extra_kinds=..., start=..., quiet=...)`, the defaults leave the generated histories as they were):
+Opt-in (C35; `build(extra_kinds=..., start=..., quiet=..., ours=..., merge_rate=...)`, the defaults leave the generated
+histories as they were):
 
+  * merges that keep none of the merged branch's changes (tree identical to the first parent, two parents);
   * paths vacated and re-occupied within one revision: an entry is removed and an existing directory / file / symlink
     is moved onto its path without any other change, or a new entry is added there; two entries trade places;
   * kind changes that keep the bytes git stores: a symlink becomes a regular file whose text is the link target (what
@@ -402,12 +404,14 @@ def commit(hist, name, wt, rng, revprops=True):
 
 
 def build(ctx, rng, fmt="2a", nrevs=8, nbranches=3, names=None, weights=None, merges=True, ghosts=False, extras=True,
-          revprops=True, extra_kinds=None, start=None, quiet=0.0):
+          revprops=True, extra_kinds=None, start=None, quiet=0.0, ours=0.0, merge_rate=0.5):
     """Random multi-branch history with merges (see module docstring).  Returns gen.Hist.
 
     extra_kinds: pool the composite edits are drawn from (default EXTRA_KINDS); start: callable laying out the first
     revision before the random ops (rich_start); quiet: share of ordinary revisions that consist of composite edits
-    only (no random single ops next to them, so a rename stays a pure rename)."""
+    only (no random single ops next to them, so a rename stays a pure rename); ours: share of merges that record the
+    merged branch as a parent but keep none of its changes (`brz revert .` after the merge keeps the pending merge:
+    the merge revision's tree is its first parent's tree); merge_rate: threshold of the merge draw (default 0.5)."""
     from breezy import errors
     from breezy.branch import Branch
     from breezy.workingtree import WorkingTree
@@ -440,7 +444,7 @@ def build(ctx, rng, fmt="2a", nrevs=8, nbranches=3, names=None, weights=None, me
             continue
         name = rng.choice(bnames)
         wt = WorkingTree.open(h.trees[name])
-        if merges and r < 0.5 and len(h.trees) > 1:
+        if merges and r < merge_rate and len(h.trees) > 1:
             other = rng.choice([b for b in bnames if b != name])
             ob = Branch.open(h.trees[other])
             with wt.lock_read():
@@ -456,9 +460,15 @@ def build(ctx, rng, fmt="2a", nrevs=8, nbranches=3, names=None, weights=None, me
                 wt.revert()
                 continue
             gen.resolve_all(wt)
-            if rng.random() < 0.5:
-                gen.random_delta(rng, wt, names, rng.randint(0, 2), weights, h.log)
-            h.log.append({"merge": other, "into": name})
+            if ours and rng.random() < ours:
+                # "ours" merge: everything the other branch brought is thrown away, the pending merge stays
+                wt.revert([""], backups=False)
+                gen.resolve_all(wt)
+                h.log.append({"merge": other, "into": name, "ours": True, "pending": len(wt.get_parent_ids()) - 1})
+            else:
+                if rng.random() < 0.5:
+                    gen.random_delta(rng, wt, names, rng.randint(0, 2), weights, h.log)
+                h.log.append({"merge": other, "into": name})
             try:
                 commit(h, name, wt, rng, revprops)
             except errors.PointlessCommit:
